@@ -44,8 +44,9 @@ static void run_case(const Cfg &c, en::CaseOut &o) {
     // onset within 10 ms
     size_t onset = held.size(); for(size_t i = 0; i < held.size(); i++) if(fabs(held[i] - idle_mean) > 0.02 * FS) { onset = i; break; }
     double onset_ms = (double)onset * 1000.0 / (double)c.rate;
+    std::string late_sig, late_detail;
     bool native = !c.pcmrate;   // onset, audibility and pitch are stated for emulators running at their native rate
-    if(native && onset_ms >= 10.0) { snprintf(b, sizeof b, "the note becomes audible %.2f ms after the note-on (limit 10 ms)", onset_ms); std::string core = name; for(auto &ch : core) if(ch == ' ' || ch == '/') ch = '_'; o.fail("C20/onset-late/" + std::string(c.burst ? "burst" + std::to_string(c.burst) : "single") + "/" + core, b + ctx); return; }
+    if(native && onset_ms >= 10.0) { snprintf(b, sizeof b, "the note becomes audible %.2f ms after the note-on (limit 10 ms)", onset_ms); std::string core = name; for(auto &ch : core) if(ch == ' ' || ch == '/') ch = '_'; late_sig = "C20/onset-late/" + std::string(c.burst ? "burst" + std::to_string(c.burst) : "single") + "/" + core; late_detail = b + ctx; }   // keep measuring: a known onset finding must not hide pitch/silence defects
     // audible while held (second half)
     double ms2 = 0, mean2 = 0; size_t h0 = held.size() / 2; for(size_t i = h0; i < held.size(); i++) mean2 += held[i]; mean2 /= (double)(held.size() - h0);
     for(size_t i = h0; i < held.size(); i++) ms2 += (held[i] - mean2) * (held[i] - mean2); double rms = sqrt(ms2 / (double)(held.size() - h0));
@@ -69,7 +70,9 @@ static void run_case(const Cfg &c, en::CaseOut &o) {
     if(c.ending == 2) { double m = 0; for(int x : after) m += x; level = m / (double)after.size(); if(fabs(level - idle_mean) > 0.01 * FS) { snprintf(b, sizeof b, "idle level after reset %.1f, before any note %.1f", level, idle_mean); o.fail("C20/idle-level-changed-by-reset", b + ctx); return; } }
     for(size_t i = 0; i < after.size(); i++) if(fabs(after[i] - level) > 0.01 * FS) { snprintf(b, sizeof b, "%.1f ms after the %s the output is %d, idle level %.1f (limit 1 %% of full scale = 327)", 150.0 + (double)i * 1000.0 / (double)c.rate, c.ending == 0 ? "note-off" : c.ending == 1 ? "panic" : "reset", after[i], level);
         o.fail(std::string("C20/not-silent-after-") + (c.ending == 0 ? "release" : c.ending == 1 ? "panic" : "reset") + (c.burst ? "/burst" : ""), b + ctx); return; }
-    o.units = idle.size() + held.size() + rel.size() + after.size(); o.nontrivial = true;
+    o.units = idle.size() + held.size() + rel.size() + after.size();
+    if(!late_sig.empty()) { o.fail(late_sig, late_detail); return; }
+    o.nontrivial = true;
     pl::g_use_null_chips = true;
 }
 
